@@ -42,15 +42,23 @@ def run(ctx):
     cpath, tpath = os.path.join(d, "cases.ndjson"), os.path.join(d, "trace.ndjson")
     vlib.write_ndjson(cpath, cases)
     p = vlib.run_harness(ctx.harness, ["serial", "-cases", cpath, "-out", tpath, "-seed", str(ctx.seed), "-repo", vlib.REPO], timeout=int(os.environ.get("VERIF_SERIAL_TIMEOUT", "900")))
+    died = None
     if p.returncode != 0:
-        raise vlib.Infra("serial driver failed: " + p.stderr[-2000:])
-    alllines = vlib.read_ndjson(tpath)
+        if "panic:" in p.stderr or "fatal error" in p.stderr:
+            # the driver process was killed from inside the library's goroutines (e.g. a handler panic that nothing
+            # recovered because the handler no longer runs in the serve goroutine): an observation, not an infrastructure fault
+            died = p.stderr[p.stderr.find("panic:") if "panic:" in p.stderr else p.stderr.find("fatal error"):][:400].replace("\n", " ")
+        else:
+            raise vlib.Infra("serial driver failed: " + p.stderr[-2000:])
+    alllines = vlib.read_ndjson(tpath) if os.path.exists(tpath) else []
     lines = [l for l in alllines if l["ev"] != "hooklog"]
     conf = conformance(ctx, [dict(case=l["sc"], events=l.get("hooks") or []) for l in alllines if l["ev"] == "hooklog"])
     bad, st = vlib.tlc_validate(ctx.scratch, "SerialTrace", "SerialTrace.cfg", lines, timeout=1800, reset_key=lambda l: l["ev"] == "reset")
     nsc = sum(1 for l in lines if l["ev"] == "reset")
     ctx.log("R2: %d scenarios; R3: %d events in %d scenarios validated, %d rejected" % (len(cases), len(lines), nsc, len(bad)))
     v = vlib.Verdict("C08")
+    if died:
+        v.report("process-died", dict(driver="serial", seed=ctx.seed), detail=died)
     resets = {}
     for l in lines:
         if l["ev"] == "reset":
